@@ -157,6 +157,13 @@ impl Env {
         true
     }
 
+    /// After a crash + restart every session is gone.
+    pub fn after_crash(&mut self) {
+        for ep in self.peers.iter_mut() {
+            ep.connected = false;
+        }
+    }
+
     pub fn restart(&mut self, sim: &mut Sim) {
         for ep in self.peers.iter_mut() {
             ep.connected = false;
@@ -432,5 +439,103 @@ impl Env {
             Err(msg) => Err(msg),
         };
         sim.step("FetchHeader", json!({"b": block + 1, "status": status}), |_| r);
+    }
+}
+
+// ---------------------------------------------------------------------------------------------
+// Adversarial deliveries (C06, C02): mutated BlockFilters / SendBlocksProof / SendTransactionsProof /
+// SendBlock, built from the request the client really sent
+// ---------------------------------------------------------------------------------------------
+impl Env {
+    /// Delivers every BlockFilters mutant for the outstanding GetBlockFilters of peer i (the request
+    /// stays outstanding for the honest answer).  Returns the number delivered.
+    pub fn mutate_filters(&mut self, sim: &mut Sim, i: usize, rng: &mut rand::rngs::StdRng, with_subst: bool) -> usize {
+        let p = self.peers[i].idx;
+        let start = match sim.inbox.iter().find_map(|s| if s.peer == p { sim::filter_request(s).filter(|(k, _)| *k == "filters").map(|(_, st)| st) } else { None }) {
+            Some(s) => s,
+            None => return 0,
+        };
+        let server = self.peers[i].server.clone();
+        let muts = crate::verif::mutate::block_filters_mutants(&sim.chain, server.tip, start, server.filters_batch, rng);
+        let mut n = 0;
+        for m in muts {
+            if m.label.starts_with("subst-hash") != with_subst {
+                continue;
+            }
+            let args = json!({"p": pname(p), "start": m.start, "n": m.fs.len(), "tip": server.tip + 1,
+                "kind": format!("mut:{}", m.label), "fs": m.fs, "hs": m.hs});
+            let bytes = m.msg.as_bytes();
+            sim.step("Filters", args, |c| c.deliver(Proto::Filter, p, bytes));
+            n += 1;
+        }
+        n
+    }
+
+    /// An unsolicited honest BlockFilters batch starting right after the filtered number.
+    pub fn unsolicited_filters(&mut self, sim: &mut Sim, i: usize) {
+        let p = self.peers[i].idx;
+        let server = self.peers[i].server.clone();
+        let start = sim.client().storage.get_min_filtered_block_number() + 1;
+        if let Some(m) = server.block_filters(&sim.chain, start) {
+            let tipn = sim.chain.blocks[server.tip].num;
+            let n = std::cmp::min(tipn + 1 - start, server.filters_batch as u64);
+            let chain = sim.chain.chain_of(server.tip);
+            let ids: Vec<usize> = (start..start + n).map(|h| chain[h as usize] + 1).collect();
+            let args = json!({"p": pname(p), "start": start, "n": n, "tip": server.tip + 1, "kind": "unsolicited", "fs": ids, "hs": ids});
+            sim.step("Filters", args, |c| c.deliver(Proto::Filter, p, m.as_bytes()));
+        }
+    }
+
+    /// Answers the outstanding GetBlocksProof of peer i with a mutated (definitely incorrect) message.
+    pub fn mutate_blocks_proof(&mut self, sim: &mut Sim, i: usize, rng: &mut rand::rngs::StdRng) -> bool {
+        use rand::Rng;
+        let p = self.peers[i].idx;
+        let req = match sim.take_request(p, sim::as_get_blocks_proof) {
+            Some(r) => r,
+            None => return false,
+        };
+        let server = self.peers[i].server.clone();
+        let honest = server.blocks_proof(&sim.chain, &req);
+        let muts = crate::verif::mutate::proof_message_mutants(&honest);
+        if muts.is_empty() {
+            return false;
+        }
+        let (label, m) = muts[rng.gen_range(0..muts.len())].clone();
+        let hs: Vec<i64> = req.block_hashes().into_iter().map(|h| hid(&sim.chain, &h)).collect();
+        let args = json!({"p": pname(p), "last": hid(&sim.chain, &req.last_hash()), "hs": hs, "tip": server.tip + 1,
+            "onChain": true, "kind": format!("mut:{}", label)});
+        sim.step("BlocksProof", args, |c| c.deliver(Proto::Lc, p, m.as_bytes()));
+        true
+    }
+
+    pub fn mutate_txs_proof(&mut self, sim: &mut Sim, i: usize, rng: &mut rand::rngs::StdRng) -> bool {
+        use rand::Rng;
+        let p = self.peers[i].idx;
+        let req = match sim.take_request(p, sim::as_get_txs_proof) {
+            Some(r) => r,
+            None => return false,
+        };
+        let server = self.peers[i].server.clone();
+        let honest = server.txs_proof(&sim.chain, &req);
+        let muts = crate::verif::mutate::proof_message_mutants(&honest);
+        if muts.is_empty() {
+            return false;
+        }
+        let (label, m) = muts[rng.gen_range(0..muts.len())].clone();
+        let hs: Vec<i64> = req.tx_hashes().into_iter().map(|h| sim.chain.tx_id_of(&h).map(|t| t as i64 + 1).unwrap_or(-1)).collect();
+        let args = json!({"p": pname(p), "last": hid(&sim.chain, &req.last_hash()), "hs": hs, "tip": server.tip + 1,
+            "onChain": true, "kind": format!("mut:{}", label)});
+        sim.step("TxsProof", args, |c| c.deliver(Proto::Lc, p, m.as_bytes()));
+        true
+    }
+
+    /// A block with the right header and a forged body.
+    pub fn deliver_forged_block(&mut self, sim: &mut Sim, i: usize, block: usize, variant: usize) {
+        let p = self.peers[i].idx;
+        let forged = crate::verif::mutate::forged_body(&sim.chain, block, variant);
+        let content = ckb_types::packed::SendBlock::new_builder().block(forged).build();
+        let m = ckb_types::packed::SyncMessage::new_builder().set(content).build();
+        let args = json!({"p": pname(p), "b": block + 1, "body": "forged"});
+        sim.step("Block", args, |c| c.deliver(Proto::Sync, p, m.as_bytes()));
     }
 }
